@@ -160,6 +160,7 @@ def run(chk):
     listed = {e["id"] for e in chk.findings if e.get("status") == "finding"}
     first = None
     ref_fail = None
+    spec_fail = None
     for (ci, d), i in zip(jobs, impl):
         name, s = cases[ci]
         ip = impl_paths(i)
@@ -179,7 +180,19 @@ def run(chk):
                 outcome_cache[ci] = star_outcomes(drv, s)[0]
             if agrees_modulo_order(ip, outcome_cache[ci]):
                 m2 = ip
+        # the Lean specification Spec.colflow (independent of the extractor model) — covers derived tables and CTEs too
+        lspec = ans1[ci]["spec"][0].get("colflow")
+        if lspec is not None and isinstance(ip, list):
+            st.c["spec-covered"] += 1
+            if sorted(map(tuple, lspec)) != sorted(map(tuple, pairs_of(ip))):
+                st.c["impl!=spec"] += 1
+                if spec_fail is None:
+                    spec_fail = (s, d)
         ref = reference_pairs(s)
+        if ref is not None and lspec is not None and sorted(map(tuple, ref)) != sorted(map(tuple, lspec)):
+            st.c["python-reference!=lean-spec"] += 1
+            if len(chk.stale) < 20:
+                chk.stale.append({"kind": "oracles-disagree", "sql": ans1[ci]["sql"][0], "python": ref, "lean": lspec})
         if ref is not None and isinstance(ip, list):
             st.c["reference-covered"] += 1
             if [list(x) for x in pairs_of(ip)] != [list(x) for x in ref]:
@@ -205,6 +218,24 @@ def run(chk):
         st.c["impl!=model"] += 1
         if first is None:
             first = (s, d)
+    if spec_fail is not None and ref_fail is None:
+        s, d = spec_fail
+
+        def spec_fails(c):
+            a_ = sqlcheck.model_eval(drv, [[c]])[0]
+            sp_ = a_["spec"][0].get("colflow")
+            if sp_ is None:
+                return False
+            i_ = sqlimpl.run_case({"sql": a_["sql"][0], "dialect": d, "want": ("tables", "columns")})
+            p_ = impl_paths(i_)
+            return isinstance(p_, list) and sorted(map(tuple, sp_)) != sorted(map(tuple, pairs_of(p_)))
+        small = sqlcheck.shrink(s, spec_fails, budget=300)
+        a = sqlcheck.model_eval(drv, [[small]])[0]
+        i = sqlimpl.run_case({"sql": a["sql"][0], "dialect": d, "want": ("tables", "columns")})
+        chk.violation("column lineage of a statement differs from the specification Spec.colflow",
+                      {"kind": "sql-columns-spec", "sql": a["sql"][0], "dialect": d, "ast": small, "impl_paths": impl_paths(i),
+                       "spec_pairs": a["spec"][0].get("colflow")})
+        first = None
     if ref_fail is not None:
         # failing input by the model-independent reference semantics: shrink with that oracle alone
         s, d = ref_fail
@@ -318,7 +349,8 @@ def reference_pairs(stmt):
                 if r is None:
                     return None
                 allrefs += r
-        qualified_names = {c for q_, c in allrefs if q_ is not None}
+        # ... anywhere in the statement (WHERE / ON / subqueries included)
+        qualified_names = {n[2] for n in gensql._walk(stmt) if isinstance(n, list) and len(n) == 3 and n[0] == "col" and n[1]}
         if any(q_ is None and c in qualified_names for q_, c in allrefs):
             return None
         out = set()
@@ -338,6 +370,9 @@ def reference_pairs(stmt):
                         return None
             if len({p for _, p, _ in rels}) != len(rels):
                 return None            # the same table twice in one scope
+            if any(p == tname for _, p, _ in rels):
+                return None            # the statement reads its own target: the target's columns then count as evidence for
+                                       # unqualified names (late resolution against the graph) — not legislated
             for j, it in enumerate(b[2]):
                 refs = _refs(it[0])
                 if refs is None:
@@ -412,5 +447,13 @@ def replay(chk, obj):
         ref = reference_pairs(r["ast"])
         print(json.dumps({"sql": a["sql"][0], "impl_pairs": pairs_of(ip) if isinstance(ip, list) else ip, "reference_pairs": ref}, indent=1))
         return 1 if ref is not None and isinstance(ip, list) and pairs_of(ip) != [list(x) for x in ref] and pairs_of(ip) != ref else 0
+    if r.get("kind") == "sql-columns-spec":
+        drv = Driver()
+        a = sqlcheck.model_eval(drv, [[r["ast"]]])[0]
+        i = sqlimpl.run_case({"sql": a["sql"][0], "dialect": r["dialect"], "want": ("tables", "columns")})
+        ip = impl_paths(i)
+        sp = a["spec"][0].get("colflow")
+        print(json.dumps({"sql": a["sql"][0], "impl_pairs": pairs_of(ip) if isinstance(ip, list) else ip, "spec_pairs": sp}, indent=1))
+        return 1 if sp is not None and isinstance(ip, list) and sorted(map(tuple, sp)) != sorted(map(tuple, pairs_of(ip))) else 0
     print("replay file names no concrete input:", json.dumps(r)[:600])
     return 1
